@@ -33,7 +33,7 @@ def hw_limit_probe(over):
 
 def main():
     ck = Check("C17", "proof")
-    lean = ck.lean_stage(["VelaVerif.Props.C17"])
+    lean = ck.lean_stage(["VelaVerif.Props.C17", "VelaVerif.Props.C17Src"])
     common.setup_repo_path()
     from ethosu.vela import api, driver_actions
     from ethosu.vela.architecture_features import Accelerator, create_default_arch
